@@ -403,8 +403,65 @@ def special_inputs(slow=False):
     except Exception:  # noqa
         pass
     out += hostile_name_inputs()
+    out += regex_hostile_markup()
+    out += guard_tripping_containers()
     out += encrypted_pdf_variants(slow)
     out += pdf_security_parameter_grid()
+    return out
+
+
+def regex_hostile_markup():
+    """Small HTML / MHTML / RTF heads built to make backtracking regular expressions over the raw input blow up: tags
+    and groups left open, long unquoted attribute runs, repeated near-matches of what the sniffers look for."""
+    out = []
+    runs = ["name=viewport content=width=device-width,initial-scale=1.0,maximum-scale=5.0,user-scalable=yes",
+            "a=b " * 40, "x" * 200, 'content="' + "a b " * 60, "charset " * 40, "http-equiv=Content-Type content=text/html;" * 6,
+            "=" * 120, "'" * 61 + '"' * 61, "a=\"b\" " * 30 + "c"]
+    for tag in ("meta", "META", "a", "img", "div", "script", "style", "!--", "!DOCTYPE", "?xml"):
+        for r_ in runs:
+            out.append(("html", f"special:html-open-{tag}-{len(r_)}", f"<html><head><{tag} {r_}".encode()))
+    out.append(("html", "special:html-many-open-meta", b"<html><head>" + b"<meta charset " * 300))
+    out.append(("html", "special:html-many-comments-open", b"<html><body>" + b"<!-- x --" * 2000 + b"<p>t</p>"))
+    out.append(("mhtml", "special:mhtml-open-meta", b"MIME-Version: 1.0\nContent-Type: text/html\n\n<html><head><meta " + b"a=b " * 60))
+    out.append(("rtf", "special:rtf-open-destinations", b"{\\rtf1 " + b"{\\*\\fldinst " * 400 + b"x"))
+    out.append(("rtf", "special:rtf-backslash-run", b"{\\rtf1 " + b"\\" * 3000 + b"x}"))
+    out.append(("eml", "special:eml-html-open-meta", b"From: a@x.org\nTo: b@x.org\nSubject: s\nMIME-Version: 1.0\nContent-Type: text/html\n\n"
+                b"<html><head><meta " + b"a=b " * 60))
+    return out
+
+
+def guard_tripping_containers():
+    """ZIP-based documents that the ZIP-bomb guard refuses (one member of 4 MiB of zeros: ratio) and encrypted-looking
+    containers: the refusal paths through every entry point, the CLI included."""
+    import io
+    import zipfile
+    import c01_fuzz
+    out = []
+    fx = c01_fuzz.fixtures()
+    for ext in ("docx", "xlsx", "pptx", "odt", "ods", "odp", "epub"):
+        for name, b in (fx.get(ext) or [])[:1]:
+            try:
+                zin = zipfile.ZipFile(io.BytesIO(b))
+                buf = io.BytesIO()
+                with zipfile.ZipFile(buf, "w", zipfile.ZIP_DEFLATED) as z:
+                    for n in zin.namelist():
+                        z.writestr(n, zin.read(n))
+                    z.writestr("zz/padding.bin", bytes(4 * 1024 * 1024))
+                out.append((ext, f"special:bomb-guard-ratio:{name}", buf.getvalue()))
+                buf = io.BytesIO()
+                with zipfile.ZipFile(buf, "w", zipfile.ZIP_DEFLATED) as z:
+                    for n in zin.namelist():
+                        z.writestr(n, zin.read(n))
+                    for k in range(600):
+                        z.writestr(f"zz/d{k}/", b"")
+                out.append((ext, f"special:many-directory-records:{name}", buf.getvalue()))
+            except Exception:  # noqa
+                pass
+    buf = io.BytesIO()
+    with zipfile.ZipFile(buf, "w", zipfile.ZIP_DEFLATED) as z:
+        z.writestr("a.txt", bytes(4 * 1024 * 1024))
+        z.writestr("b.txt", "hello")
+    out.append(("zip", "special:zip-archive-with-4MiB-zero-member", buf.getvalue()))
     return out
 
 
@@ -743,8 +800,15 @@ def fuzz(ctx):
         ms = modes if lab.startswith(("fixture:", "special:")) and len(b) < 150_000 else [modes[j % len(modes)]]
         for m in ms:
             cases.append((k, lab, b, m))
+    # the read_file entry point under names the router has to decide by other means than a known extension
+    rf_src = [c for c in base if c[1].startswith("special:")] + muts[: ctx.n(250, 1500)]
+    rf_names = ["blob", "blob.unknownext", "blob.", ".hidden", "BLOB.DAT", "blob.tar.unknown"]
+    for j, (k, lab, b) in enumerate(rf_src):
+        cases.append((k, lab, b, ("read_file", rf_names[j % len(rf_names)])))
+        if j % 3 == 0:
+            cases.append((k, lab, b, ("read_file", f"named.{k}")))
     t0 = time.time()
-    res = c01_fuzz.run_cases(cases, nproc=14, case_timeout=ctx.n(20, 40), total_timeout=ctx.n(240, 1500))
+    res = c01_fuzz.run_cases(cases, nproc=14, case_timeout=ctx.n(20, 40), total_timeout=ctx.n(300, 1800))
     ctx.extra["fuzz_wall_s"] = round(time.time() - t0, 1)
     ctx.extra["fuzz_not_run"] = len(cases) - len(res)
     from sharepoint2text.parsing import router
@@ -755,7 +819,7 @@ def fuzz(ctx):
         oc, det, secs = res[i]
         kind = lab.split(":")[0]
         ctx.case((k, lab, len(b), tuple(m) if m is not None else None, hash(b)), not lab.startswith("fixture:"),
-                 kind=("cli:" if m is not None else "extract:") + oc)
+                 kind=("read_file:" if isinstance(m, tuple) else "cli:" if m is not None else "extract:") + oc)
         ctx.count("mutation:" + kind)
         fn = router._EXTRACTOR_REGISTRY[k][1]
         rp = {"registry_key": k, "label": lab, "cli_args": m, "input": b, "outcome": oc, "detail": det,
@@ -770,7 +834,7 @@ def fuzz(ctx):
         elif oc == "cli-bad":
             what = "partial-stdout" if "stdout_len=0" not in det and "rc=1" in det else (
                 "stderr-lines" if "rc=1" in det else "other")
-            ctx.finding(f"cli:{what}:{k}:{' '.join(m)}:{kind}", f"CLI contract broken for {lab} {m}: {det}", rp)
+            ctx.finding(f"cli:{what}:{k}:{' '.join(map(str, m))}:{kind}", f"CLI contract broken for {lab} {m}: {det}", rp)
         if secs > 10:
             ctx.count("slow>10s")
     ctx.extra["fuzz_timeouts_first_pass"] = [f"{k}:{lab}:{m}" for _, k, lab, _, m in slow][:20]
